@@ -145,7 +145,7 @@ func (m *monitor) partM() []histCase {
 		mk(step{Outcome: "fail", K: 0, API: "Calculate", Content: katSpec(k), Chunk: "fill", FailErr: "custom"}, okS(k, "Calculate", "fill"))
 		mk(step{Outcome: "cancel", K: -1, API: "CalculateWithContext", Content: katSpec(k), Chunk: "fill"}, okS(k, "Calculate", "fill"))
 		mk(step{Outcome: "fail", K: len(k), API: "Calculate", Content: katSpec(k), Chunk: "fill", FailErr: "custom"}, okS(k, "Calculate", "fill")) // error instead of EOF
-		for in := range a.KAT { // every published vector on a fresh hasher, whole and byte-wise
+		for in := range a.KAT {                                                                                                                    // every published vector on a fresh hasher, whole and byte-wise
 			out = append(out, histCase{Part: "M", Algo: a.Name, Ctor: "named", Steps: []step{okS(in, "Calculate", "fill")}})
 			if len(in) < 1000 {
 				out = append(out, histCase{Part: "M", Algo: a.Name, Ctor: "named", Steps: []step{okS(in, "CalculateWithContext", "1")}})
